@@ -42,6 +42,12 @@ CHECKS["C14"] = dict(
     note="Half-infinite Uniform is improper by construction (only support/finite constant asserted). Statistical clauses at p=1e-9 thresholds; continuous parameter space sampled with VERIF_SEED.",
     ref="5 C14")
 
+CHECKS["C12"] = dict(
+    technique="TLA+ spec Posterior.tla (staged control flow of lnposterior over abstract input classes) model-checked by TLC; every behaviour replayed on real models with an independent Gaussian log-density oracle on the public calc_holo",
+    text="TLC enumerates all 3456 combinations of input classes (values inside/outside support, valid/invalid scatterer, constraint none/ok/violated, model noise none/scalar/prior, data noise absent/None/scalar, all-uniform priors, medium_index on model/data/both/neither, pixel subset, AlphaModel fixed/prior scaling or ExactModel with a custom calc function) and checks: no forward calculation and -inf whenever the prior is -inf, noise and optics precedence model-then-data, unit noise only for all-uniform priors, the missing parameter is named. Each behaviour (900 sampled in quick, all in thorough) is replayed: outcome class, exact number of forward calculations, input data untouched, lnposterior = sum of lnprob + Gaussian log-density of the residuals to the public calc_holo at the applicable noise (1e-10), forward = calc_holo incl. scaling and random subsets (same RNG state), per-channel noise.",
+    note="Forward calls are counted by wrapping holopy.inference.model.calc_holo in the harness process. One medium_index key stands for the optics keys (wavelength/polarization follow it).",
+    ref="5 C12")
+
 NOT_APPLICABLE = []
 
 
